@@ -31,21 +31,21 @@ type cliCase struct {
 	Phylip bool      `json:"phylip"`            // Phylip input (always with More)
 	F      *formula  `json:"formula,omitempty"` // a tall or long first alignment, by formula
 	// optional inputs, drawn independently so that every combination occurs
-	HasRef  bool     `json:"ref_sequence"`            // stats --per-sequences: --ref-sequence given
-	Profile []string `json:"count_profile,omitempty"` // --count-profile: rows the profile file is counted from (per-sequences, gaps --unique, mutations --unique)
-	Only    string   `json:"only,omitempty"`          // stats char --only
-	Layout  cli.Layout `json:"layout"`   // presentation of a FASTA input
-	OutFile bool       `json:"out_file"` // consensus / diff: -o <file> instead of standard output
-	Stale   bool       `json:"stale"`    // the output file exists before, with longer stale content
-	Cmd     string   `json:"cmd"`
-	IG      bool     `json:"ignore_gaps"`
-	IN      bool     `json:"ignore_n"`
-	Ref     int      `json:"ref"` // reference row for the mutation commands
-	Pseudo  float64  `json:"pseudocount"`
-	Log     bool     `json:"log"`
-	Norm    int      `json:"normalization"`
-	Avg     bool     `json:"average"`
-	NoGaps  bool     `json:"no_gaps"`
+	HasRef  bool       `json:"ref_sequence"`            // stats --per-sequences: --ref-sequence given
+	Profile []string   `json:"count_profile,omitempty"` // --count-profile: rows the profile file is counted from (per-sequences, gaps --unique, mutations --unique)
+	Only    string     `json:"only,omitempty"`          // stats char --only
+	Layout  cli.Layout `json:"layout"`                  // presentation of a FASTA input
+	OutFile bool       `json:"out_file"`                // consensus / diff: -o <file> instead of standard output
+	Stale   bool       `json:"stale"`                   // the output file exists before, with longer stale content
+	Cmd     string     `json:"cmd"`
+	IG      bool       `json:"ignore_gaps"`
+	IN      bool       `json:"ignore_n"`
+	Ref     int        `json:"ref"` // reference row for the mutation commands
+	Pseudo  float64    `json:"pseudocount"`
+	Log     bool       `json:"log"`
+	Norm    int        `json:"normalization"`
+	Avg     bool       `json:"average"`
+	NoGaps  bool       `json:"no_gaps"`
 }
 
 var cliCmds = []string{"mutations-list", "entropy", "pssm", "diff-counts", "per-sequences", "mutations-ref", "consensus", "maxchar", "stats",
@@ -191,7 +191,7 @@ func genCLI(t *rapid.T) cliCase {
 	c.Ref = rapid.IntRange(0, minRows-1).Draw(t, "ref")
 	c.Pseudo = rapid.SampledFrom([]float64{0, 0.5, 1}).Draw(t, "pseudo")
 	c.Log = rapid.Bool().Draw(t, "log")
-	c.Norm = rapid.SampledFrom([]int{1, 0, 9}).Draw(t, "norm")
+	c.Norm = rapid.SampledFrom([]int{1, 3, 0, 2, 9}).Draw(t, "norm")
 	c.Avg = rapid.Bool().Draw(t, "avg")
 	c.NoGaps = rapid.Bool().Draw(t, "nogaps")
 	return c
@@ -367,7 +367,7 @@ func TestCLI(t *testing.T) {
 			if c.Log {
 				args = append(args, "-l")
 			}
-			wantErr = c.Norm != 0 && c.Norm != 1
+			wantErr = c.Norm < 0 || c.Norm > 3
 		case "diff-counts":
 			args = []string{"diff", "--counts", "-i", in}
 			if c.NoGaps {
@@ -437,6 +437,16 @@ func TestCLI(t *testing.T) {
 					if r.Exit == 0 {
 						o.Class("nucleotide-'?':error-logged-but-status-0")
 					}
+					return o, nil
+				}
+			}
+		}
+		if c.Cmd == "pssm" && c.Norm == 2 {
+			for _, x := range alis {
+				if !allAlphabetCharsPresent(x) {
+					// division by the frequency 0 of a character that does not occur: not judged
+					o.Ambiguous++
+					o.Class("pssm:norm=2:character-absent-not-judged")
 					return o, nil
 				}
 			}
@@ -740,15 +750,9 @@ func TestCLI(t *testing.T) {
 								cnt++
 							}
 						}
-						want := float64(cnt) + c.Pseudo
-						if c.Norm == 1 {
-							want /= float64(n) + float64(len(chars))*c.Pseudo
-						}
-						if c.Log {
-							want = math.Log2(want)
-						}
+						want, alt := pssmWant(a, chars, chars[k], cnt, c.Pseudo, c.Norm, c.Log)
 						got, e := parseF(f[k+1])
-						if e != nil || !closeTo(got, want, 0.0005) {
+						if e != nil || (!closeTo(got, want, 0.0005+math.Abs(want)*1e-9) && !closeTo(got, alt, 0.0005+math.Abs(alt)*1e-9)) {
 							return fail("line %v, %c: %v expected", f, chars[k], want)
 						}
 					}
